@@ -215,6 +215,18 @@ def validate_init(ctx, c01, n):
             ol(r._byhour), ol(r._byminute), ol(r._bysecond),
             "-" if r._timeset is None else ilist([x for t in r._timeset for x in (t.hour, t.minute, t.second)])])
         reqs.append("rrgen.init " + c01.wire(c)); exp.append(("ok", e))
+    # the whole translated constructor (Gen.init) against the normalised state of the implementation
+    wreqs, wexp = [], []
+    for c in cases:
+        try:
+            r = c01.build(c)
+            wexp.append("ok " + c01.impl_rule_dump(r))
+        except Exception as ex:
+            if not isinstance(ex, ValueError) or "UTC" in str(ex):
+                continue                  # the awareness check is not part of the translation
+            wexp.append("err " + exc_kind(ex))
+        wreqs.append("rrgen.initwhole " + c01.wire(c))
+    _compare(ctx, wreqs, wexp, "rrgen_initwhole")
     got = ctx.driver(reqs)
     for q, (kind, e), g in zip(reqs, exp, got):
         if kind == "ok":
